@@ -388,6 +388,10 @@ def prepare_attr_value(
     Returns:
         The prepared value.
     """
+    if value is UNCHANGED:
+        # Nothing is being assigned (and, in particular, no empty collection
+        # should be created in place of the existing one).
+        return UNCHANGED
     value = mutate_value(
         old_value=MISSING,
         new_value=value,
